@@ -287,3 +287,140 @@ Proof.
       constructor; [apply wf_mhdr; exact Hmh|]. constructor; [apply wf_dinf; exact Hdinf|]. constructor; [|constructor].
       apply wf_stbl; assumption.
 Qed.
+
+(* ------------------------------------------------------------------ fuel: S (length bs) is enough *)
+Lemma fuel_sum cs : Forall (fun c => N.of_nat (fuel_of c) + 6 <= size_box c) cs ->
+  N.of_nat (length cs + maxl (map fuel_of cs)) <= sumN (map size_box cs).
+Proof.
+  induction 1 as [|c cs Hc _ IH]; [cbn; lia|]. cbn [length map maxl sumN]. lia.
+Qed.
+
+Lemma fuel_size_n n : forall t, (fuel_of t <= n)%nat -> wf t -> N.of_nat (fuel_of t) + 6 <= size_box t.
+Proof.
+  induction n as [|n IHn]; intros t Hn Hw.
+  { destruct t; cbn [fuel_of] in Hn; lia. }
+  assert (Hkids : forall cs, (S (S (length cs + maxl (map fuel_of cs))) <= S n)%nat -> Forall wf cs ->
+                             Forall (fun c => N.of_nat (fuel_of c) + 6 <= size_box c) cs).
+  { intros cs Hle Hf. apply Forall_forall. intros c Hin. apply IHn.
+    - pose proof (maxl_in fuel_of c cs Hin). lia.
+    - exact (proj1 (Forall_forall _ _) Hf c Hin). }
+  destruct Hw as [l d _ _ _ _ (b & _ & Hlen & _)
+                 |name cs _ _ _ _ _ _ _ _ Hcs
+                 |name p _ _ _ _ _
+                 |l d lk cs _ _ _ (b & _ & Hlen & _) _ _ Hcs].
+  - unfold leafb. cbn [fuel_of size_box]. lia.
+  - unfold contb in *. cbn [fuel_of size_box] in *. pose proof (fuel_sum cs (Hkids cs Hn Hcs)). lia.
+  - unfold unkb, hdr8. cbn [fuel_of size_box h_size]. lia.
+  - unfold preb in *. cbn [fuel_of size_box] in *. pose proof (fuel_sum cs (Hkids cs Hn Hcs)). lia.
+Qed.
+
+Lemma fuel_size t : wf t -> N.of_nat (fuel_of t) + 6 <= size_box t.
+Proof. intros H. exact (fuel_size_n (fuel_of t) t (Nat.le_refl _) H). Qed.
+
+(* decode of one well-formed box at the head of a slice, with the fuel decode gives itself *)
+Lemma decode_wf t : wf t -> exists enc, raw_box false t = Ok enc /\ 8 <= lenN enc /\ forall r2, decode (enc ++ r2) = Ok (t, r2).
+Proof.
+  intros Hw. destruct (pp_box t Hw) as (enc & He & Hl & H8 & Hd). exists enc. split; [exact He|]. split; [lia|].
+  intros r2. unfold decode. apply Hd. pose proof (fuel_size t Hw). rewrite app_length. unfold lenN in Hl. lia.
+Qed.
+
+Lemma decode_file_wf ts : Forall wf ts -> exists bs, encode_seq false ts = Ok bs /\ decode_file bs = Ok ts.
+Proof.
+  intros Hw.
+  assert (G : exists bs, encode_seq false ts = Ok bs /\ forall f, (length ts < f)%nat -> decode_seq f bs = Ok ts).
+  { induction Hw as [|t ts Ht _ IH].
+    - exists []. split; [reflexivity|]. intros f Hf. destruct f; [lia|]. reflexivity.
+    - destruct IH as (bs & Hb & Hd). destruct (decode_wf t Ht) as (e & He & H8 & Hde).
+      exists (e ++ bs). cbn [encode_seq]. rewrite He, Hb. split; [reflexivity|].
+      intros f Hf. destruct f as [|f]; [lia|]. cbn [decode_seq].
+      destruct (e ++ bs) as [|x y] eqn:E.
+      { apply (f_equal (@length N)) in E. rewrite app_length in E. unfold lenN in H8. cbn in E. lia. }
+      rewrite <- E, Hde, Hd by (cbn [length] in Hf; lia). reflexivity. }
+  destruct G as (bs & Hb & Hd). exists bs. split; [exact Hb|]. unfold decode_file. apply Hd.
+  (* length ts <= length bs: every box has at least 8 bytes *)
+  clear Hd. revert bs Hb. induction Hw as [|t ts Ht _ IH]; intros bs Hb; [cbn; lia|].
+  cbn [encode_seq] in Hb. destruct (decode_wf t Ht) as (e & He & H8 & _). rewrite He in Hb.
+  destruct (encode_seq false ts) as [bs'| | |]; try discriminate. cbn [rcat] in Hb. injection Hb as <-.
+  specialize (IH bs' eq_refl). rewrite app_length. cbn [length]. unfold lenN in H8. lia.
+Qed.
+
+(* ------------------------------------------------------------------ moov: the invariant order is stable *)
+Lemma lti_snoc {A} (f : A -> bool) acc x : forall i a, f x = true ->
+  C01Model.last_trak_idx f (acc ++ [x]) i a = (i + length acc)%nat.
+Proof.
+  induction acc as [|y acc IH]; intros i a Hx; cbn [app C01Model.last_trak_idx length].
+  - rewrite Hx. lia.
+  - rewrite IH by exact Hx. lia.
+Qed.
+
+Lemma stable_inv {A} (f : A -> bool) ts : forall acc,
+  (C01Model.last_trak_idx f acc 0 0 = 0 \/ C01Model.last_trak_idx f acc 0 0 = length acc - 1)%nat ->
+  Forall (fun c => f c = true) ts -> moov_stable_from f acc ts = true.
+Proof.
+  induction ts as [|c ts IH]; intros acc Hk Hall; [reflexivity|]. inversion Hall; subst.
+  cbn [moov_stable_from]. apply andb_true_iff. split.
+  - apply negb_true_iff. unfold moov_cond. destruct Hk as [-> | ->].
+    + cbn [Nat.eqb negb andb]. apply andb_false_r.
+    + rewrite Nat.eqb_refl. cbn [negb]. rewrite andb_false_r. apply andb_false_r.
+  - apply IH; [|assumption]. right. rewrite lti_snoc by assumption. rewrite app_length. cbn [length]. lia.
+Qed.
+
+Lemma trak_box_is_trak t b : trak_box t = Some b -> is_trak_box b = true.
+Proof.
+  unfold trak_box. destruct (entries_boxes (sd_entries t)); [|discriminate]. intros Hb. gets Hb. reflexivity.
+Qed.
+
+Lemma wf_trak_list s : forall l bs, children_boxes s (map MCtrak l) = Some bs ->
+  forallb trak_okb (traks s) = true -> forallb enc_fits bs = true ->
+  Forall wf bs /\ Forall (fun b => is_trak_box b = true) bs.
+Proof.
+  induction l as [|i l IH]; intros bs Hb Hok Hf; cbn [map children_boxes child_box] in Hb.
+  - gets Hb. split; constructor.
+  - destruct (nth_error (traks s) i) as [t|] eqn:Et; [|discriminate].
+    destruct (trak_box t) as [b|] eqn:Eb; [|discriminate].
+    destruct (children_boxes s (map MCtrak l)) as [bs'|]; [|discriminate]. gets Hb.
+    cbn [forallb] in Hf. apply andb_true_iff in Hf. destruct Hf as [Hf1 Hf2].
+    destruct (IH bs' eq_refl Hok Hf2) as [I1 I2].
+    assert (Ht : trak_okb t = true) by (rewrite forallb_forall in Hok; apply Hok; eapply nth_error_In; eauto).
+    split; constructor; try assumption; [eapply wf_trak; eauto|eapply trak_box_is_trak; eauto].
+Qed.
+
+Lemma wf_trexs ids : forallb (fun id => id <? 4294967296) ids = true -> forallb enc_fits (map trex_box ids) = true ->
+  Forall wf (map trex_box ids).
+Proof.
+  induction ids as [|id ids IH]; intros Hok Hf; [constructor|]. cbn [map forallb] in *.
+  apply andb_true_iff in Hok, Hf. destruct Hok as [H1 H2]. destruct Hf as [F1 F2]. apply N.ltb_lt in H1.
+  constructor; [|apply IH; assumption].
+  unfold trex_box in *. eapply wf_leafb; [reflexivity|reflexivity|reflexivity|exact F1|]. apply lpp_trex; try assumption; lia.
+Qed.
+
+(* ------------------------------------------------------------------ the round trip of every invariant state *)
+Theorem roundtrip_state s ts :
+  inv_struct s -> args_okb s = true -> tree_of s = Some ts -> forallb enc_fits ts = true ->
+  exists bs, encode_seq false ts = Ok bs /\ decode_file bs = Ok ts.
+Proof.
+  intros (Hc & _ & _) Hok Ht Hf. unfold tree_of in Ht.
+  destruct (children_boxes s (children s)) as [cs|] eqn:Ecs; [|discriminate]. gets Ht.
+  unfold args_okb in Hok. apply andb_true_iff in Hok. destruct Hok as [Hok Htr]. apply andb_true_iff in Hok.
+  destruct Hok as [Hnext Htx]. apply N.ltb_lt in Hnext.
+  cbn [forallb] in Hf. apply andb_true_iff in Hf. destruct Hf as [Hft Hf]. apply andb_true_iff in Hf. destruct Hf as [Hfm _].
+  apply decode_file_wf. constructor; [|constructor; [|constructor]].
+  - (* ftyp *)
+    unfold ftyp_box in *. eapply wf_leafb; [reflexivity|reflexivity|reflexivity|exact Hft|]. apply lpp_ftyp. vm_compute. discriminate.
+  - (* moov *)
+    destruct (fits_cont _ _ Hfm) as [Hsz Hfc].
+    rewrite Hc in Ecs. unfold base_children in Ecs. cbn [app children_boxes child_box] in Ecs.
+    destruct (children_boxes s (map MCtrak (seq 0 (length (traks s))))) as [tb|] eqn:Etb; [|discriminate]. gets Ecs.
+    cbn [forallb] in Hfc. apply andb_true_iff in Hfc. destruct Hfc as [Hf1 Hfc]. apply andb_true_iff in Hfc. destruct Hfc as [Hf2 Hf3].
+    destruct (wf_trak_list s _ tb Etb Htr Hf3) as [Wt It].
+    apply wf_cont; try reflexivity; try assumption.
+    + intros _. cbn [moov_stable_from]. unfold moov_cond at 1. cbn [is_trak_box box_name mvhd_box leafb leaf_name].
+      change (bytes_eqb n_mvhd n_trak) with false. cbn [andb negb app].
+      unfold moov_cond at 1. unfold contb at 1. cbn [is_trak_box box_name h_name hdr8].
+      change (bytes_eqb n_mvex n_trak) with false. cbn [andb negb app].
+      apply stable_inv; [|exact It]. left. reflexivity.
+    + constructor; [|constructor].
+      * unfold mvhd_box in *. eapply wf_leafb; [reflexivity|reflexivity|reflexivity|exact Hf1|]. apply lpp_mvhd; try assumption; lia.
+      * destruct (fits_cont _ _ Hf2) as [_ Hfx]. apply wf_contb; try reflexivity; try assumption. apply wf_trexs; assumption.
+      * exact Wt.
+Qed.
